@@ -1,10 +1,61 @@
-(* C17 — every request is answered with its own reply, in issue order.  Statements only. *)
-From MPD Require Import Bytes Tables LoopModel LoopProofs.
+(* C17 — album art is reassembled byte-exactly for any size and chunk limit.  Statements only.
+   Model: CallerModel.art_step (Client::album_art as a state machine over the results of its
+   requests; each request gets its own reply whatever else the connection is doing - C01).  The
+   server side is a picture [pic] whose size field parses to its length, and an ARBITRARY sequence
+   of positive chunk limits, one per request (a concurrent binarylimit does not matter). *)
+From Coq Require Import Arith Sorted.
+From MPD Require Import Bytes Tables BuilderModel CommandModel LoopModel CallerModel CallerProofs.
 Open Scope N_scope.
 
-Theorem c17_placeholder : forall wf p i p' outs bs,
-  cstep wf p i = (p', outs) -> In (OWrite bs) outs ->
-  bs = idle_line \/ bs = noidle_line \/
-  (exists q, (p = PCancel q \/ i = InCmd (Some q)) /\ bs = q_bytes q).
-Proof. exact cstep_writes. Qed.
-Print Assumptions c17_placeholder.
+(* from any proper prefix of the picture, the offset loop returns exactly the picture (and the MIME
+   type of the embedded source), issuing at most (bytes left) requests at strictly increasing
+   offsets inside the picture *)
+Theorem c17_exact : forall uri pic mime szb,
+  parse_uint 64 szb = Some (N.of_nat (length pic)) -> forall limit, (forall k, (1 <= limit k)%nat) ->
+  forall d n k emb fuel,
+  (n < length pic)%nat -> d = (length pic - n)%nat -> (d <= fuel)%nat ->
+  exists offs,
+    art_loop uri pic mime szb limit fuel k emb (firstn n pic) = (ArtSome pic (if emb then mime else None), offs) /\
+    (length offs <= d)%nat /\ (forall o, In o offs -> (n <= o < length pic)%nat) /\ StronglySorted lt offs.
+Proof. exact art_loop_exact. Qed.
+
+(* the first request is at offset 0 and its chunk starts the loop (or completes a small picture) *)
+Theorem c17_first_request : forall uri pic mime szb limit,
+  parse_uint 64 szb = Some (N.of_nat (length pic)) ->
+  first_step pic mime szb limit (art_start uri) 0 =
+  art_continue (mkArt uri (ALoop true) (firstn (limit 0%nat) pic) (N.of_nat (length pic)) mime).
+Proof. intros. apply embedded_first. assumption. Qed.
+
+(* fallback exactly when the embedded-picture command yields nothing or is unknown (code 5, read from the source) *)
+Theorem c17_fallback_empty : forall uri f,
+  f_binary f = None -> art_step (art_start uri) (CROk [f]) = inl (mkArt uri ATryFile [] 0 None).
+Proof. exact art_fallback_on_empty. Qed.
+
+Theorem c17_fallback_unknown : forall uri e fs,
+  e_code e = album_art_fallback_code -> art_step (art_start uri) (CRAck e fs) = inl (mkArt uri ATryFile [] 0 None).
+Proof. exact art_fallback_on_unknown. Qed.
+
+Theorem c17_other_errors_propagate : forall uri e fs,
+  e_code e <> album_art_fallback_code -> art_step (art_start uri) (CRAck e fs) = inr (ArtErr (CRAck e fs)).
+Proof. exact art_propagates_other_errors. Qed.
+
+Theorem c17_absent : forall uri f,
+  f_binary f = None -> art_step (mkArt uri ATryFile [] 0 None) (CROk [f]) = inr ArtNone.
+Proof. exact art_absent. Qed.
+
+Theorem c17_file_errors_propagate : forall uri e fs,
+  art_step (mkArt uri ATryFile [] 0 None) (CRAck e fs) = inr (ArtErr (CRAck e fs)).
+Proof. exact art_file_errors_propagate. Qed.
+
+Example c17_ex :
+  let pic := b "OK" ++ [LF] ++ b "binary: 3" ++ [LF; 0; 255] in
+  snd (art_loop (b "u") pic (Some (b "image/png")) (b "15") (fun k => S (k mod 2)) 20 0 true []) = [0; 1; 3; 4; 6; 7; 9; 10; 12; 13]%nat /\
+  fst (art_loop (b "u") pic (Some (b "image/png")) (b "15") (fun k => S (k mod 2)) 20 0 true []) = ArtSome pic (Some (b "image/png")).
+Proof. split; vm_compute; reflexivity. Qed.
+
+Print Assumptions c17_exact.
+Print Assumptions c17_first_request.
+Print Assumptions c17_fallback_empty.
+Print Assumptions c17_fallback_unknown.
+Print Assumptions c17_other_errors_propagate.
+Print Assumptions c17_absent.
